@@ -165,6 +165,14 @@ def _decay(t):
     c = t["cond"]
     f = P.formula(t["formula"])
     evs = []
+    if t.get("edit_thalf"):
+        # the owner of the table corrects some half-lives (records are plain attribute holders)
+        from periodictable import core
+        for el in f.atoms:
+            base = el.element if core.ision(el) else el
+            for iso in ([base] if core.isisotope(base) else [base[i] for i in base.isotopes]):
+                for ai in getattr(iso, "neutron_activation", []):
+                    ai.Thalf_hrs = ai.Thalf_hrs * t["edit_thalf"]
     ref = activation.Sample(f, c["mass"])
     ref.calculate_activation(_env(c), exposure=c["exposure"], rest_times=[0])
     products = [{"A0": dec.to_dec(v[0]), "Thalf": dec.to_dec(ai.Thalf_hrs)} for ai, v in ref.activity.items()]
